@@ -18,7 +18,7 @@ const ruleC07 = "objects with 2..12 keys from a set that orders differently by b
 	"Oracle: every repetition on every physical copy returns the same sequence, equal to SPEC (keys ascending byte-wise — cross-checked against the order encoding/json.Marshal prints — arrays by index, union/multi as written, '..' pre-order). " +
 	"Non-trivial: the root object (or an object under it) has >=3 keys whose byte order differs from the order they were generated in. Distinct = distinct (path, document)."
 
-var c07Keys = []string{"shipping_address", "shipping_method", "shipping_zone", "aaaaaaaaa", "aaaaaaaab", "aaaaaaaa", "prefix__10", "prefix__2", "prefix__1", "ééééé1", "ééééé0", "a", "B", "aa", "b", "é", "z", "10", "9", "", "￿", "\U00010000", "Z", "ab", "a0", "_", "~", "ä", "é", "A", "1", "-", "a b", "éé", "～"}
+var c07Keys = []string{"shipping_address", "shipping_method", "shipping_zone", "aaaaaaaaa", "aaaaaaaab", "aaaaaaaa", "prefix__10", "prefix__2", "prefix__1", "ééééé1", "ééééé0", "a", "B", "aa", "b", "é", "z", "10", "9", "", "￿", "\U00010000", "Z", "ab", "a0", "_", "~", "ä", "é", "A", "1", "-", "a b", "éé", "～", "k", "k\x00", "k\x00a", "k\x00b", "\x00", "k\x01"}
 
 func c07Object(rt *rapid.T, depth int) *gen.DNode {
 	n := 2 + gen.Uniform(rt, "nkeys", 11)
@@ -68,7 +68,26 @@ func drawC07(rt *rapid.T) *Case {
 			}
 		}
 	}
-	if gen.Uniform(rt, "longarray", 60) == 0 {
+	if gen.Uniform(rt, "thread", 12) == 0 {
+		// a thread nested 6..11 levels (objects and arrays in turn), two branches at every level
+		levels := 6 + gen.Uniform(rt, "threadlevels", 6)
+		var build func(n int) *gen.DNode
+		build = func(n int) *gen.DNode {
+			o := gen.Obj().Set("id", gen.Num(float64(n)))
+			if n > 0 {
+				kids := gen.Arr(build(n - 1))
+				if n%2 == 0 {
+					kids.Kids = append(kids.Kids, gen.Obj().Set("id", gen.Num(float64(100+n))))
+				}
+				o.Set("replies", kids)
+			}
+			return o
+		}
+		if d.Get("thread") == nil {
+			d.Set("thread", build(levels))
+		}
+	}
+	if gen.Uniform(rt, "longarray", 150) == 0 {
 		// an array of more than a thousand elements somewhere below the root
 		long := gen.Arr()
 		for i, n := 0, 1025+gen.Uniform(rt, "longlen", 90); i < n; i++ {
